@@ -190,20 +190,66 @@ Proof.
 Qed.
 
 (* ================================================================== (d) transformed hmtx *)
-(* both flag bits, all four combinations: the dropped arrays are rebuilt from the glyphs' xMin;
-   in particular the trailing leftSideBearing[] array takes the xMin of glyphs numberOfHMetrics,
-   numberOfHMetrics+1, ... and has numGlyphs - numberOfHMetrics entries *)
-Theorem C11_hmtx_transform_roundtrip : forall glyf h bytes,
-  hmtx_ok glyf h -> Forall xmin_readable glyf -> encodes_hmtx glyf h bytes ->
+(* Where the code is right: the trailing leftSideBearing[] array is present in the stream (flag
+   bit 1 clear).  The lsb[] array of the long metrics may be present or dropped (flag bit 0, then
+   rebuilt from the glyphs' xMin); reserved flag bits are arbitrary. *)
+Theorem C11_hmtx_transform_roundtrip : forall flags glyf h bytes,
+  hmtx_ok glyf h -> Forall xmin_readable glyf -> encodes_hmtx_flags flags glyf h bytes ->
+  Z.land flags 2 = 0 ->
   read_woff2_hmtx glyf (len glyf) (len (fst h)) bytes = Ok h.
 Proof. exact hmtx_transform_roundtrip. Qed.
 Print Assumptions C11_hmtx_transform_roundtrip.
 
-(* three glyphs, numberOfHMetrics = 1, both arrays dropped: lsb of glyphs 1 and 2 are the xMin of
-   glyphs 1 and 2 (the defect fixed by dde44b3 took them from glyphs 0 and 1, and added a third) *)
-Example C11_ex_hmtx_elided :
+(* KNOWN FINDING C11-hmtx-lsb-absent: with LEFT_SIDE_BEARING_ABSENT (flag bit 1 set) the code
+   rebuilds the trailing array from ALL glyphs starting at glyph 0.  Exactly what it produces: *)
+Theorem C11_hmtx_lsb_absent_actual : forall flags glyf h bytes,
+  hmtx_ok glyf h -> Forall xmin_readable glyf -> encodes_hmtx_flags flags glyf h bytes ->
+  Z.land flags 2 = 2 ->
+  read_woff2_hmtx glyf (len glyf) (len (fst h)) bytes = Ok (fst h, map xmin_spec glyf).
+Proof. exact hmtx_lsb_absent_actual. Qed.
+Print Assumptions C11_hmtx_lsb_absent_actual.
+
+(* ... which is never the original table once numberOfHMetrics >= 1 (numGlyphs trailing entries
+   instead of numGlyphs - numberOfHMetrics): the property fails on the whole class *)
+Theorem C11_hmtx_lsb_absent_differs : forall flags glyf h bytes,
+  hmtx_ok glyf h -> Forall xmin_readable glyf -> encodes_hmtx_flags flags glyf h bytes ->
+  Z.land flags 2 = 2 -> 1 <= len (fst h) ->
+  read_woff2_hmtx glyf (len glyf) (len (fst h)) bytes <> Ok h.
+Proof. exact hmtx_lsb_absent_differs. Qed.
+Print Assumptions C11_hmtx_lsb_absent_differs.
+
+(* ... and what a reader of the decoded table sees: glyphs below numberOfHMetrics keep their
+   metrics (so a font with numberOfHMetrics = numGlyphs only carries numGlyphs surplus entries);
+   glyph g >= numberOfHMetrics gets the xMin of glyph g - numberOfHMetrics instead of its own *)
+Theorem C11_hmtx_lsb_absent_lookup : forall flags glyf h bytes r g,
+  hmtx_ok glyf h -> Forall xmin_readable glyf -> encodes_hmtx_flags flags glyf h bytes ->
+  Z.land flags 2 = 2 ->
+  read_woff2_hmtx glyf (len glyf) (len (fst h)) bytes = Ok r ->
+  (0 <= g < len (fst h) -> hmtx_lsb r g = hmtx_lsb h g) /\
+  (len (fst h) <= g < len glyf ->
+     hmtx_lsb r g = xmin_spec (nth (Z.to_nat (g - len (fst h))) glyf GEmpty) /\
+     hmtx_lsb h g = xmin_spec (nth (Z.to_nat g) glyf GEmpty)).
+Proof. exact hmtx_lsb_absent_lookup. Qed.
+Print Assumptions C11_hmtx_lsb_absent_lookup.
+
+(* witness inside the class: three glyphs with xMin 11, 22, 33, numberOfHMetrics = 1, both arrays
+   dropped (flags = 3).  The original table is 500/11 : 22, 33; the decoder returns three trailing
+   entries and glyph 1 reads the left side bearing 11 instead of 22, glyph 2 reads 22 instead of 33 *)
+Definition ex_hmtx_glyphs : list glyph :=
   let g x := GComposite {| bb_xmin := x; bb_ymin := 0; bb_xmax := 0; bb_ymax := 0 |} [] [] in
-  read_woff2_hmtx [g 11; g 22; g 33] 3 1 [3; 1; 244] = Ok ([(500, 11)], [22; 33]).
+  [g 11; g 22; g 33].
+Example C11_known_hmtx_lsb_absent :
+  encodes_hmtx_flags 3 ex_hmtx_glyphs ([(500, 11)], [22; 33]) [3; 1; 244] /\
+  read_woff2_hmtx ex_hmtx_glyphs 3 1 [3; 1; 244] = Ok ([(500, 11)], [11; 22; 33]) /\
+  hmtx_lsb ([(500, 11)], [11; 22; 33]) 1 = 11 /\ hmtx_lsb ([(500, 11)], [22; 33]) 1 = 22.
+Proof.
+  split; [|vm_compute; repeat split; reflexivity].
+  unfold encodes_hmtx_flags. split; [lia|]. repeat split; intros; reflexivity.
+Qed.
+
+(* the same metrics with the trailing array kept (flags = 1) decode correctly *)
+Example C11_ex_hmtx_lsb_present :
+  read_woff2_hmtx ex_hmtx_glyphs 3 1 [1; 1; 244; 0; 22; 0; 33] = Ok ([(500, 11)], [22; 33]).
 Proof. vm_compute. reflexivity. Qed.
 
 (* ================================================================== (e) directory, tables *)
@@ -269,12 +315,12 @@ Print Assumptions C11_collection_member_tables.
    PARTIAL with respect to C11: that G/L, read back as TrueType glyf/loca, describe gs again is
    established by correspondence (the harness re-parses the output), not by this theorem. *)
 Theorem C11_transformed_font_tables_partial :
-  forall m ts flavor index gs h gt lt ht hdt mt hht head long G offs L,
+  forall m ts flavor index gs h flags gt lt ht hdt mt hht head long G offs L,
   Forall tabspec_ok ts -> NoDup (map t_tag ts) ->
   In gt ts -> t_tag gt = tag_glyf -> t_transformed gt = true -> encodes_glyf_table m gs (t_data gt) ->
   In lt ts -> t_tag lt = tag_loca -> t_transformed lt = true ->
   In ht ts -> t_tag ht = tag_hmtx -> t_transformed ht = true ->
-  encodes_hmtx gs h (t_data ht) -> hmtx_ok gs h ->
+  encodes_hmtx_flags flags gs h (t_data ht) -> Z.land flags 2 = 0 -> hmtx_ok gs h ->
   In hdt ts -> t_tag hdt = tag_head -> t_transformed hdt = false -> read_head (t_data hdt) = Ok (head, long) ->
   In mt ts -> t_tag mt = tag_maxp -> t_transformed mt = false -> read_maxp (t_data mt) = Ok (len gs) ->
   In hht ts -> t_tag hht = tag_hhea -> t_transformed hht = false -> read_hhea (t_data hht) = Ok (len (fst h)) ->
@@ -305,14 +351,17 @@ Print Assumptions C11_rebuilt_glyf_loca_read_back.
      hmtx  = the plain serialisation of h (the original table),
      glyf, loca = tables through which the TrueType reader finds exactly gs,
      head  = the original with checkSumAdjustment zeroed and the matching indexToLocFormat,
-     every other table byte-identical. *)
+     every other table byte-identical.
+   The hypothesis `Z.land flags 2 = 0` (the hmtx encoder kept the trailing leftSideBearing[]
+   array) excludes the known finding C11-hmtx-lsb-absent; inside that class hmtx is not the
+   original table (C11_hmtx_lsb_absent_differs). *)
 Theorem C11_transformed_font_roundtrip :
-  forall m ts flavor index gs h gt lt ht hdt mt hht head long,
+  forall m ts flavor index gs h flags gt lt ht hdt mt hht head long,
   Forall tabspec_ok ts -> NoDup (map t_tag ts) ->
   In gt ts -> t_tag gt = tag_glyf -> t_transformed gt = true -> encodes_glyf_table Debug gs (t_data gt) ->
   In lt ts -> t_tag lt = tag_loca -> t_transformed lt = true ->
   In ht ts -> t_tag ht = tag_hmtx -> t_transformed ht = true ->
-  encodes_hmtx gs h (t_data ht) -> hmtx_ok gs h ->
+  encodes_hmtx_flags flags gs h (t_data ht) -> Z.land flags 2 = 0 -> hmtx_ok gs h ->
   In hdt ts -> t_tag hdt = tag_head -> t_transformed hdt = false -> read_head (t_data hdt) = Ok (head, long) ->
   In mt ts -> t_tag mt = tag_maxp -> t_transformed mt = false -> read_maxp (t_data mt) = Ok (len gs) ->
   In hht ts -> t_tag hht = tag_hhea -> t_transformed hht = false -> read_hhea (t_data hht) = Ok (len (fst h)) ->
